@@ -169,6 +169,17 @@ func verifHarness_C08_fix(version int, shape int, keyed int, strlen int) {
 			// the node has an outgoing key, the received frame is unsigned and stays so: the next hop holds no key
 			key = nil
 		}
+		if keyed == 3 {
+			// re-signing: a signed frame (any signature, e.g. made with another key) whose message is left as it
+			// is, so that its checksum is already the right one; FixFrame still has to produce a valid signature
+			f2.IncompatibilityFlag = 1
+			f2.SignatureLinkID = verifNondetU8()
+			f2.SignatureTimestamp = verifNondetU64()
+			verifAssume(f2.SignatureTimestamp < 1<<48)
+			f2.Signature = new(frame.V2Signature)
+			copy(f2.Signature[:], verifNondetBytes(6))
+			f2.Checksum = frame.VerifSpecChecksumV2(1, compat, seq, sys, comp, spec.ID(), frame.VerifTruncate(full), spec.CRCExtra())
+		}
 		if keyed == 1 {
 			f2.IncompatibilityFlag = 1
 			f2.SignatureLinkID = verifNondetU8()
